@@ -43,6 +43,9 @@ func (d *Dataset) Expand() []Row {
 func valueOf(kind string, seed uint64, col, j int) string {
 	h := simrt.Hash3(seed, uint64(col)+77, uint64(j))
 	switch kind {
+	case "order":
+		// values chosen to trap wrong comparisons: prefixes, case, bytes >= 0x80, digits, NUL, blanks
+		return orderTraps[j%len(orderTraps)]
 	case "utf8":
 		alph := []string{"ä", "ö", "日", "本", "é", "x", "y", " ", "\"", ",", "\n", "🙂", "a", "b"}
 		var sb strings.Builder
@@ -66,6 +69,8 @@ func valueOf(kind string, seed uint64, col, j int) string {
 		return fmt.Sprintf("v%d", j)
 	}
 }
+
+var orderTraps = []string{"", "A", "B", "a", "ab", "abc", "b", "Z", "z", "é", "É", "a\x00", "a ", " a", "10", "9", "2", "-1", "\xff", "~", "aB", "Ab", "ÿ", "日", "a\n"}
 
 func (sp *DataSpec) Expand() []Row {
 	rows := make([]Row, 0, sp.N+sp.TrailingEmpty)
@@ -140,7 +145,7 @@ func GenDataSpec(r *simrt.Rand, n int, wantUnique bool) *DataSpec {
 	if r.Chance(1, 3) {
 		ncols = r.Range(4, 7)
 	}
-	kinds := []string{"num", "num", "utf8", "bin", "mixed"}
+	kinds := []string{"num", "num", "utf8", "bin", "mixed", "order"}
 	shapes := []string{"uniform", "uniform", "zipf", "run", "sparse"}
 	perm := r.Intn(len(colNames))
 	for c := 0; c < ncols; c++ {
@@ -259,6 +264,10 @@ func genNary(r *simrt.Rand, si *schemaInfo, depth int, o ExprOpts, op string) *E
 	ar := 1 + r.Intn(o.MaxArity)
 	if ar == 1 && r.Chance(2, 3) {
 		ar = 2
+	}
+	if o.MaxArity >= 4 && r.Chance(1, 25) {
+		ar = r.Range(6, 24) // a wide node now and then
+		depth = 1
 	}
 	e := &Expr{Op: op}
 	for i := 0; i < ar; i++ {
